@@ -270,6 +270,34 @@ pub fn c05(tier: Tier) -> Vec<Case> {
             b.add_variant(grp, vi, "memo-subsets/long-inputs", with_memo(&g, &names, mask), spec.clone(), &format!("mask{mask}"));
         }
     }
+    // a memoized rule (whose tree holds a @string rule) evaluated first inside the body of another @string rule and then,
+    // at the same offset, from an ordinary field
+    {
+        let inputs = InputSpec::Strings { alphabet: vec!['b', 'c', 'x', ' '], max_len: if tier == Tier::Quick { 5 } else { 6 } };
+        for skip_i in [false, true] {
+            let nd = |on: bool, mut v: Vec<Directive>| {
+                if on {
+                    v.push(Directive::NoSkipWs);
+                }
+                v
+            };
+            let g = Grammar {
+                rules: vec![
+                    Rule::normal("Root", vec![Directive::Export, Directive::Position], choice(vec![field("q", "Q"), field("p", "Pl"), seq(vec![not(rref("P")), field("w", "W")])])),
+                    Rule::normal("Q", vec![], seq(vec![field("path", "P"), lit("x"), field("name", "I")])),
+                    Rule::normal("Pl", vec![], seq(vec![field("name", "I"), opt(field("w", "W"))])),
+                    Rule::normal("W", vec![Directive::Position], seq(vec![lit("c"), opt(field("i", "I"))])),
+                    Rule::normal("P", nd(true, vec![Directive::String]), seq(vec![rref("I"), star(seq(vec![lit("c"), rref("I")]))])),
+                    Rule::normal("I", nd(!skip_i, vec![Directive::String]), plus(lit("b"))),
+                ],
+            };
+            let names = vec!["I".to_string(), "P".to_string(), "W".to_string()];
+            let grp = b.new_group();
+            for (vi, mask) in subsets(3).into_iter().enumerate() {
+                b.add_variant(grp, vi, "memo-subsets/inside-string", with_memo(&g, &names, mask), inputs.clone(), &format!("mask{mask}"));
+            }
+        }
+    }
     // a memoized recursive rule reached at one offset through call paths of different depth, on deeply nested inputs
     {
         let mut inputs: Vec<String> = Vec::new();
@@ -583,6 +611,29 @@ pub fn c07(tier: Tier) -> Vec<Case> {
             b.last().note = "recursive-first".into();
         }
     }
+    // (a3) recursive alternatives that share a prefix containing a nested reference to the rule itself
+    {
+        let inputs = InputSpec::Strings { alphabet: vec!['n', '[', ']', ':', '('], max_len: if tier == Tier::Quick { 7 } else { 8 } };
+        let idx = seq(vec![bfield("l", "A"), lit("["), bfield("i", "A"), lit("]")]);
+        let slice = seq(vec![bfield("l", "A"), lit("["), bfield("i", "A"), lit(":"), bfield("j", "A"), lit("]")]);
+        let call = seq(vec![bfield("l", "A"), lit("("), bfield("i", "A"), lit("]")]);
+        let empty_call = seq(vec![bfield("l", "A"), lit("("), lit("]")]);
+        for arms in [vec![idx.clone(), slice.clone(), field("n", "N")], vec![slice.clone(), idx.clone(), field("n", "N")], vec![call.clone(), empty_call.clone(), field("n", "N")], vec![idx.clone(), slice.clone(), call.clone(), empty_call.clone(), field("n", "N")]] {
+            for root_kind in 0..2 {
+                let root = if root_kind == 0 { seq(vec![field("a", "A"), Expr::Eoi]) } else { field("a", "A") };
+                let g = Grammar {
+                    rules: vec![
+                        Rule::normal("Root", vec![Directive::Export, Directive::Position, Directive::NoSkipWs], root),
+                        Rule::normal("A", vec![Directive::Leftrec, Directive::Position, Directive::NoSkipWs], choice(arms.clone())),
+                        n_rule(),
+                    ],
+                };
+                if wf::well_formed(&g) && b.add("leftrec/shared-prefix", g, inputs.clone()) {
+                    b.last().note = "recursive-first".into();
+                }
+            }
+        }
+    }
     // (a') base alternatives before, between and after the recursive one; bases that recurse at a later position
     {
         let inputs = InputSpec::Strings { alphabet: vec!['n', '+', '-', '(', ')'], max_len: if tier == Tier::Quick { 6 } else { 7 } };
@@ -884,6 +935,42 @@ pub fn c13(tier: Tier) -> Vec<Case> {
                             b.add_variant(grp, 1, &fam, r_inl, inputs.clone(), "inlined");
                         }
                     }
+                }
+            }
+        }
+    }
+    // includes inside the user-defined Whitespace rule (and inside a rule it calls): the included rules carry no
+    // directive of their own - their bodies are pasted into the @no_skip_ws includer
+    {
+        let inputs = InputSpec::Strings { alphabet: vec!['b', ' ', '_', '#', '\n'], max_len: if tier == Tier::Quick { 5 } else { 6 } };
+        let blank = choice(vec![lit(" "), lit("_")]);
+        let comment = seq(vec![lit("#"), star(seq(vec![not(lit("\n")), rref("char")])), lit("\n")]);
+        for ws_shape in 0..2 {
+            for root_body in [seq(vec![star(field("f", "X")), Expr::Eoi]), seq(vec![field("f", "X"), opt(field("g", "X"))])] {
+                let mk = |include: bool| -> Grammar {
+                    let piece = |name: &str, body: &Expr| if include { inc(name) } else { group(body.clone()) };
+                    let ws_body = if ws_shape == 0 {
+                        star(choice(vec![piece("Blank", &blank), piece("Comment", &comment)]))
+                    } else {
+                        star(rref("WsItem"))
+                    };
+                    let mut rules = vec![
+                        Rule::normal("Root", vec![Directive::Export, Directive::Position], root_body.clone()),
+                        Rule::normal("X", vec![Directive::Position], seq(vec![lit("b"), opt(lit("b"))])),
+                        Rule::normal("Whitespace", vec![Directive::NoSkipWs], ws_body),
+                    ];
+                    if ws_shape == 1 {
+                        rules.push(Rule::normal("WsItem", vec![Directive::NoSkipWs], choice(vec![piece("Blank", &blank), piece("Comment", &comment)])));
+                    }
+                    if include {
+                        rules.push(Rule::normal("Blank", vec![], blank.clone()));
+                        rules.push(Rule::normal("Comment", vec![], comment.clone()));
+                    }
+                    Grammar { rules }
+                };
+                let grp = b.new_group();
+                if b.add_variant(grp, 0, "include-in-whitespace", mk(true), inputs.clone(), "include") {
+                    b.add_variant(grp, 1, "include-in-whitespace", mk(false), inputs.clone(), "inlined");
                 }
             }
         }
@@ -1356,6 +1443,23 @@ pub fn c20(tier: Tier) -> Vec<Case> {
         };
         let inputs: Vec<String> = vec!["m!".into(), "m".into(), format!("{}!", "m".repeat(7000)), format!("{}.", "m".repeat(5000)), format!("{}!", "m".repeat(4097)), format!("{}!", "m".repeat(4095))];
         b.add("pure/memo-long", g, InputSpec::List(inputs));
+    }
+    // a grammar with a memoized rule whose cache hit shows in the reported error, and a rule with a check function
+    // (a scheduling point also for a parse that runs through `parse_with_trace`)
+    {
+        let g = Grammar {
+            rules: vec![
+                Rule::normal(
+                    "Root",
+                    vec![Directive::Export, Directive::NoSkipWs],
+                    choice(vec![seq(vec![field("m", "M"), lit("x")]), seq(vec![opt(seq(vec![lit("b"), lit("c"), lit("c"), lit("Q")])), field("m", "M"), lit("y")]), field("h", "H")]),
+                ),
+                Rule::normal("M", vec![Directive::NoSkipWs, Directive::Memoize], lit("b")),
+                Rule::normal("H", vec![Directive::NoSkipWs, chk("chk0")], seq(vec![lit("c"), opt(field("m", "M"))])),
+            ],
+        };
+        let inputs: Vec<String> = ["bccd", "cb", "c", "by", "bx"].iter().map(|s| s.to_string()).collect();
+        b.add("pure/traced-neighbour", g, InputSpec::List(inputs));
     }
     // a left-recursive rule that grows several times (longer parses for the preemption-bounded schedule exploration)
     {
